@@ -59,6 +59,7 @@ type instance struct {
 	cli      workerapipb.WorkerServiceClient
 	seq      int
 	adm      admSeed
+	bootKind string
 	watchCfg bool // admin calls: the configuration file is part of the observed state
 }
 
@@ -161,7 +162,7 @@ func compileEvent(opt options, r Row) Event {
 	t := makeTokens(opt.seed, c)
 	pfx := "VFPA_C_" + c.ID()
 	text := configText(c, "bare", pfx, t, true)
-	ev := Event{Ev: "Compile", Row: r, Mount: "bare", Auth: []string{}, Delta: []string{}}
+	ev := Event{Ev: "Compile", Row: r, Mount: "bare", Boot: "direct", Auth: []string{}, Delta: []string{}}
 	parsed, err := config.Parse([]byte(text))
 	if err != nil {
 		ev.Err = "parse: " + err.Error()
@@ -183,15 +184,47 @@ func compileEvent(opt options, r Row) Event {
 	return ev
 }
 
-func boot(opt options, c Cfg, mount string) (*instance, error) {
-	in := &instance{opt: opt, cfg: c, mount: mount}
+// predecessor is a different compile-accepted configuration of the same shape: every route's "own tokens" flag is
+// flipped and global tokens exist.  Booting it and hot-reloading into the target exercises loadAuth on reload.
+func predecessor(c Cfg) Cfg {
+	p := Cfg{Own: make([]bool, len(c.Own)), Glob: true, Adm: c.Adm}
+	for i, o := range c.Own {
+		p.Own[i] = !o
+	}
+	return p
+}
+
+func boot(opt options, c Cfg, mount string, viaReload bool) (*instance, error) {
+	in := &instance{opt: opt, cfg: c, mount: mount, bootKind: "direct"}
 	in.tok = makeTokens(opt.seed, c)
 	pfx := "VFPA_" + c.ID() + "_" + mount
+	if viaReload {
+		pfx += "_R"
+		in.bootKind = "reload"
+	}
+	in.dir = filepath.Join(opt.scratch, fmt.Sprintf("pa-%s-%s-%s-%d", c.ID(), mount, in.bootKind, os.Getpid()))
 	text := configText(c, mount, pfx, in.tok, true)
-	in.dir = filepath.Join(opt.scratch, fmt.Sprintf("pa-%s-%s-%d", c.ID(), mount, os.Getpid()))
-	inst, p, err := vfapp.Boot(text, in.dir, "")
+	first := text
+	if viaReload {
+		pc := predecessor(c)
+		pt := makeTokens(opt.seed+7919, pc)
+		first = configText(pc, mount, pfx+"_P", pt, true)
+		// a token that was valid before the reload and is configured nowhere afterwards
+		in.tok.None = pt.G[0]
+	}
+	inst, p, err := vfapp.Boot(first, in.dir, "")
 	if err != nil {
-		return nil, fmt.Errorf("boot %s: %v\n%s", c.ID(), err, text)
+		return nil, fmt.Errorf("boot %s: %v\n%s", c.ID(), err, first)
+	}
+	if viaReload {
+		if err := os.WriteFile(p, []byte(text), 0o644); err != nil {
+			inst.Stop()
+			return nil, err
+		}
+		if !inst.Reload("verif") {
+			inst.Stop()
+			return nil, fmt.Errorf("hot reload into %s refused\n--- from\n%s--- to\n%s", c.ID(), first, text)
+		}
 	}
 	in.inst, in.cfgPath = inst, p
 	ms, ok := inst.Store.(*queue.MemoryStore)
@@ -575,7 +608,7 @@ func (in *instance) callPull(r Row, v variant, ci int, hv []string) Event {
 	in.topUp(4)
 	leases := in.lease(route, k)
 	pre := in.observe()
-	ev := Event{Ev: "Call", Row: r, Mount: in.mount, Variant: v.name, Kind: v.kind, Conc: ci, Method: v.method, Path: v.path,
+	ev := Event{Ev: "Call", Row: r, Mount: in.mount, Boot: in.bootKind, Variant: v.name, Kind: v.kind, Conc: ci, Method: v.method, Path: v.path,
 		Auth: hv, Delta: []string{}}
 	if ev.Auth == nil {
 		ev.Auth = []string{}
